@@ -100,6 +100,8 @@ def run_batch(ctx, programs, il_subs=None, c_subs=None, formats=tv.FORMATS, stat
         case["fam"] = fam
         case["gk"] = p.get("gk", ["op:s", "op:t"])
         case["nin"] = p.get("nin") or FAM_NIN[fam](ctx.tier)
+        if not case["regs"] and not case["imms"] and not p.get("nin"):
+            case["nin"] = 2      # a program without operands computes the same on every input state
         case["tags"] = p.get("tags", [])
         cases.append(case)
         res.cases[p["id"]] = (p, case)
